@@ -326,11 +326,11 @@ Record acase := mkAcase {
 Definition acase_model (c : acase) : list (res pstate) := map (fun ti => parse [] (fst ti)) (ac_rend c).
 
 Definition check_acase (c : acase) : bool :=
-  forallb (fun ti => outcome_matches (parse [] (fst ti)) (snd ti)) (ac_rend c)
+  let rs := map (fun ti => (parse [] (fst ti), snd ti)) (ac_rend c) in
+  forallb (fun x => outcome_matches (fst x) (snd x)) rs
   && match ac_ast c with
      | Some (g, true) =>
-         wf_graph g && eoc_safe g
-         && forallb (fun ti => outcome_means (parse [] (fst ti)) g) (ac_rend c)
+         wf_graph g && eoc_safe g && forallb (fun x => outcome_means (fst x) g) rs
      | Some (g, false) => negb (wf_graph g && eoc_safe g)
      | None => true
      end.
